@@ -7,13 +7,21 @@ directions, overrides).  A harness-side wrapper around selection._choose_gene (m
 for the duration of the call; no source hook) records which genes each call appended: the calls with an
 explicit chosen_idx are the desperate phase, every other call is one iteration of `while True`.  The
 model replays desperate prefix + batches (tag 1250) and must arrive at the same outcome: `break` with
-the same final statistics and utility array, IndexError (pop from empty list) or RuntimeError (chose
-gene twice, same gene).  Property on the observed list: the extracted spec_c12_batch / spec_c12
-(tag 1252) and the independent census of c12.py.
+the same final statistics and utility array.  A batch has a VARIABLE length (1..k genes): _choose_gene
+stops it as soon as sorted_utility_idx is empty or its last element has utility <= 0; the model accepts
+a batch shorter than k only if no member of the list has a positive utility any more, and a pop only
+of a member of maximal, positive utility.  Property on the observed list: the extracted spec_c12 (the
+FULL statement, as for k = 1) and spec_c12_batch (tag 1252) and the independent census of c12.py; on
+the observed trace: every batch of the loop has between 1 and k genes.
 
-Three deviations of the unchanged code for k >= 2 are predicted by the model, proved in Props/C12.v
-(c12_batch_in_query_and_marker_refuted, c12_batch_returns_refuted_empty_list,
-c12_batch_returns_refuted_chosen_twice) and reported through known_findings.json.
+Before the repair of _choose_gene (findings F23, F24, F25, now "fixed" in known_findings.json) a batch
+always popped k entries: genes marking no pair of the parent were selected, IndexError (pop from empty
+list) and RuntimeError (chose gene twice) were raised.  The model proves that none of the three can
+happen (Props/C12.v c12_batch_in_query_and_marker, c12_batch_never_raises, c12_batch_full_spec); an
+occurrence is a violation with its input (classes c12-batch:gene-marks-no-pair-of-parent,
+c12-batch:raises-pop-from-empty-list, c12-batch:raises-chose-gene-twice).  The tables on which the
+old code went wrong are generated as before (distribution batch_stopped_early counts the runs in which the
+early stop fired).
 
 Stand-alone replay of a record written by this part:
     PYTHONPATH=/repo/src:<checkout> python -m harness.props.c12_batch <replay.json>"""
@@ -28,6 +36,7 @@ KS = [2, 3, 5, 17]
 CLS_USELESS = 'c12-batch:gene-marks-no-pair-of-parent'
 CLS_EMPTY = 'c12-batch:raises-pop-from-empty-list'
 CLS_TWICE = 'c12-batch:raises-chose-gene-twice'
+USELESS, EMPTY, TWICE = (c.split(':', 1)[1] for c in (CLS_USELESS, CLS_EMPTY, CLS_TWICE))   # report() prefixes 'c12-batch:'
 
 
 # ------------------------------------------------------------------ the wrapper that records the batches
@@ -138,7 +147,7 @@ def run_case(world, tree, ref, parent, behemoth, k):
 
 # ------------------------------------------------------------------ comparison
 def check_case(base, world, parent, obs, thin, rep, spec, greedy, canaries):
-    """-> (corr, prop, known, label)"""
+    """-> (corr, prop, known, label); `known` stays empty: nothing of this part is a known finding any more"""
     corr, prop, known = [], [], []
     if 'setup_failed' in obs:
         overlap = set(world['genes']) & set(world['query'])
@@ -191,22 +200,21 @@ def check_case(base, world, parent, obs, thin, rep, spec, greedy, canaries):
                 corr.append(('SelectionK.state', f'marker_distribution: impl {st.get("marker_distribution")} model {md}'))
             if list(util) != obs['utility_final']:
                 corr.append(('SelectionK.state', f'final utility_array: impl {obs["utility_final"]} model {list(util)}'))
+        # every batch of the loop has between 1 and k genes (c12_batch_trace_legal)
+        bad = [b for b in obs['batches'] if not 1 <= len(b) <= obs['k']]
+        if bad:
+            prop.append(('batch-length', f'k={obs["k"]}: a pass of the loop chose {len(bad[0])} genes: {bad[0]}'))
     elif obs['outcome'][0] == 'empty':
-        label = 'IndexError'
-        if res != [1, 10]:
-            corr.append(('SelectionK.replayk', f'k={obs["k"]}: implementation raised {obs["msg"]} after {obs["prefix"]} + '
-                                               f'{obs["batches"]}; model: {res}'))
+        label = 'IndexError'         # the model has no such outcome (c12_batch_never_raises): reported below, with the input
     else:
         label = 'RuntimeError-twice'
-        if res != [1, 11, obs['outcome'][1]]:
-            corr.append(('SelectionK.replayk', f'k={obs["k"]}: implementation raised {obs["msg"]} after {obs["prefix"]} + '
-                                               f'{obs["batches"]}; model: {res}'))
-    if greedy == [1, 1] or greedy[0] == 2:
-        corr.append(('SelectionK.greedyk', f'the fuelled loop of the model ran out of fuel / bad input: {greedy}'))
+    if greedy[0] != 0:
+        # c12_batch_never_raises / c12_batch_terminates: the fuelled loop of the model ends in `break` on every table
+        corr.append(('SelectionK.greedyk', f'the fuelled loop of the model did not end in break: {greedy}'))
     for c in canaries:
         if c[0][0] == 0:
-            corr.append(('SelectionK.replayk-canary', 'the model accepts mutilated batches (one gene dropped / last batch repeated) '
-                                                      f'of {obs["prefix"]} + {obs["batches"]}'))
+            corr.append(('SelectionK.replayk-canary', 'the model accepts mutilated batches (one gene dropped / last batch repeated / '
+                                                      f'last batch extended by an unselected gene) of {obs["prefix"]} + {obs["batches"]}'))
     # property
     if obs['outcome'][0] == 'done':
         if spec[0] != 0 or not spec[1][2]:
@@ -215,24 +223,32 @@ def check_case(base, world, parent, obs, thin, rep, spec, greedy, canaries):
             if not spec[1][0]:
                 prop.append(('spec_c12_batch', f'k={obs["k"]}: extracted spec_c12_batch is false on {obs["selected"]}'))
             elif not spec[1][1]:
-                known.append((CLS_USELESS, f'k={obs["k"]}: {obs["selected"]} contains a gene that marks no pair of the parent'))
+                # spec_c12 = spec_c12_batch + "every gene marks a slot of the parent" (c12_batch_full_spec)
+                prop.append((USELESS, f'k={obs["k"]}: extracted spec_c12 is false on {obs["selected"]}: it contains a gene that '
+                                      'marks no pair of the parent'))
         useless = False
+        others = []
         for cls, msg in base.census(world, parent, obs['selected'], obs['n_per']):
-            if cls == 'gene-marks-no-pair-of-parent':
+            if cls == USELESS:
                 useless = True
+                if not any(c == USELESS for c, _ in prop):
+                    prop.append((USELESS, f'k={obs["k"]}: {msg}'))
                 continue
-            prop.append((cls, f'k={obs["k"]}: {msg}'))
-        if useless != bool(spec[0] == 0 and spec[1][0] and not spec[1][1]) and not prop:
+            others.append((cls, f'k={obs["k"]}: {msg}'))
+        prop += others
+        if useless != bool(spec[0] == 0 and spec[1][0] and not spec[1][1]) and not others:
             corr.append(('SelectionK.spec_c12_batch', f'independent census and extracted predicates differ on {obs["selected"]}'))
         if useless:
             label = 'done-with-useless-gene'
     elif obs['outcome'][0] == 'empty':
-        known.append((CLS_EMPTY, f'k={obs["k"]}: {obs["msg"]} after {obs["prefix"]} + {obs["batches"]}'))
+        prop.append((EMPTY, f'k={obs["k"]}: {obs["msg"]} after {obs["prefix"]} + {obs["batches"]}; model replay: {res}'))
     else:
-        known.append((CLS_TWICE, f'k={obs["k"]}: {obs["msg"]} after {obs["prefix"]} + {obs["batches"]}'))
-    if obs['k'] == 1 and known:
-        prop.append(('k1-' + known[0][0], known[0][1]))        # with k = 1 none of the three may occur (c12_batch_one_*)
-        known = []
+        prop.append((TWICE, f'k={obs["k"]}: {obs["msg"]} after {obs["prefix"]} + {obs["batches"]}; model replay: {res}'))
+    # the three classes of F23/F24/F25 come first: they name the failure (known_findings.json matches on them)
+    prop.sort(key=lambda cm: cm[0] not in (USELESS, EMPTY, TWICE))
+    if obs['k'] == 1:
+        # with k = 1 none of the three could occur before the repair either (c12_batch_one_*): a class of its own
+        prop = [(('k1-' + c) if c in (USELESS, EMPTY, TWICE) else c, m) for c, m in prop]
     return corr, prop, known, label
 
 
@@ -289,11 +305,18 @@ def batch_level(ctx, base, worlds, pick, say=None):
             dropped = [list(bb) for bb in bs]
             if dropped:
                 dropped[-1] = dropped[-1][:-1]
+            # what _choose_gene did before its repair: go on popping although nothing useful is left (or: one gene
+            # more than k) - the last batch extended by a gene that was not selected
+            rest = [i for i in range(ng) if i not in set(sel)]
+            extended = (bs[:-1] + [bs[-1] + rest[:1]]) if bs else [rest[:1]]
+            if not rest:
+                extended = bs + ([bs[-1]] if bs else [[0]])
             second += [(1250, [ng, pd, idx, o['n_per'], o['k'], pre, bs]),
                        (1252, [ng, pd, idx, o['n_per'], sel]),
                        (1251, [ng, pd, idx, o['n_per'], o['k']]),
                        (1250, [ng, pd, idx, o['n_per'], o['k'], pre, dropped if bs else [[0]]]),
-                       (1250, [ng, pd, idx, o['n_per'], o['k'], pre, bs + ([bs[-1]] if bs else [[0]])])]
+                       (1250, [ng, pd, idx, o['n_per'], o['k'], pre, bs + ([bs[-1]] if bs else [[0]])]),
+                       (1250, [ng, pd, idx, o['n_per'], o['k'], pre, extended])]
     r2 = ctx.model(second)
     j = 0
     for (w, rn, p, b, o), th in zip(recs, thin):
@@ -302,8 +325,8 @@ def batch_level(ctx, base, worlds, pick, say=None):
         if 'outcome' in o and o['outcome'][0] != 'other' and th[0] == 0:
             rep, spec, greedy = r2[j], r2[j + 1], r2[j + 2]
             if o['outcome'][0] == 'done':
-                canaries = [r2[j + 3], r2[j + 4]]
-            j += 5
+                canaries = [r2[j + 3], r2[j + 4], r2[j + 5]]
+            j += 6
         corr, prop, known, label = check_case(base, w, p, o, th, rep, spec, greedy, canaries)
         for c in canaries:
             ctx.dist('batch_canary_mutant_rejected', c[0][0] != 0)
@@ -320,6 +343,13 @@ def batch_level(ctx, base, worlds, pick, say=None):
         ctx.dist('batch_pairs_of_parent', min(n_pairs, 10))
         ctx.dist('batch_iterations_of_the_loop', min(nb, 8))
         ctx.dist('batch_desperate_genes', min(len(o.get('prefix', [])), 5))
+        if o['k'] >= 2 and o.get('outcome') == ['done']:
+            # a batch shorter than k = the early stop of _choose_gene fired: exactly the runs in which the unrepaired
+            # code went on popping entries of utility <= 0 (a gene marking filled slots only, a gene marking no pair of
+            # the parent: F23) or raised (F24, F25)
+            ctx.dist('batch_stopped_early', any(len(bb) < o['k'] for bb in o['batches']))
+            ctx.dist('batch_length_of_last_batch_vs_k', 'no-batch' if not o['batches'] else
+                     ('short' if len(o['batches'][-1]) < o['k'] else 'full'))
         if 'thin_pairs' in o:
             ctx.dist('batch_has_pair_short_of_target', any(len(a) < o['n_per'] or len(bb) < o['n_per'] for a, bb in o['thin_pairs']))
             ctx.dist('batch_has_pair_without_marker', any(not a and not bb for a, bb in o['thin_pairs']))
@@ -410,9 +440,9 @@ def run_part(ctx):
     ctx.assumptions += [
         'part batch: genes_at_a_time is an integer >= 1 (0 or a negative value makes `while True` spin without choosing a '
         'gene; not generated); its values are {1, 2, 3, 5, 17}',
-        'part batch: for genes_at_a_time >= 2 the clause "every selected gene is a reference marker of a pair of the parent" and '
-        'the totality of the call are REFUTED (Props/C12.v c12_batch_*_refuted) and reported as known findings; the predicate '
-        'evaluated on the observed lists is spec_c12_batch (no duplicates, in the query, coverage)',
+        'part batch: the predicate evaluated on the observed lists is the full spec_c12 for every genes_at_a_time (no '
+        'duplicates, in the query, marker of a pair of the parent, coverage); F23/F24/F25 are repaired (kind "fixed"): a useless '
+        'gene, IndexError or RuntimeError("chose gene twice") is a violation with its input; no table is excluded',
     ]
     import time
     t0 = time.time()
